@@ -83,7 +83,7 @@ ASSUMPTIONS = ['stdlib datetime (proleptic Gregorian day count) for instants '
                'descending time axes are left to C16 (time2idx front-end)',
                'numpy converts timezone-aware datetimes to UTC when building '
                'datetime64 arrays (checked on the installed numpy 2.5)']
-BUDGET = {'quick': dict(examples=9600, max_s=200),
+BUDGET = {'quick': dict(examples=14400, max_s=200),
           'thorough': dict(examples=200000, max_s=3000)}
 EXHAUSTIVE_NOTE = ('thorough tier: every (year 1970-2100, day of year, hour '
                    '0-23) as TFLAG rows at minute/second patterns 00:00, '
